@@ -503,6 +503,12 @@ func (x *Run) havocPointee(st *State, a Val) {
 func (x *Run) invoke(fr *Frame, st *State, recv Val, cc *ssa.CallCommon, args []Val, site ssa.Instruction) []Outcome {
 	m := cc.Method
 	full := m.FullName()
+	// A-NONNIL: interface receivers are not nil (a call through a nil interface
+	// panics; that panic is not among the obligations generated), so after the
+	// call the path knows it
+	if recv.S == SIface && recv.T != "inil" && !fr.inPure() {
+		st.assume(not(eq(recv.T, "inil")))
+	}
 	all := append([]Val{recv}, args...)
 	if con := x.spec.contractFor(full); con != nil && con.InlineKnown && recv.Inner != nil && recv.Inner.Ty != nil && !(fr.con == con) {
 		// receiver's dynamic type known: run the implementation (each listed
